@@ -489,6 +489,8 @@ impl<R: Read, TSpec> TagIterator<R, TSpec>
                 self.read_next();
     
                 if position >= self.emission_queue.len() {
+                    // Like any other error inside a buffered master, the error replaces the partially collected children
+                    self.emission_queue.truncate(pre_queue_len);
                     self.emission_queue.push_back(Err(TagIteratorError::UnexpectedEOF{ tag_start, tag_id: Some(tag_id), tag_size: None, partial_data: None }));
                     return;
                 }
